@@ -95,6 +95,7 @@ type Struct struct {
 	Derived          string // `type Name Derived` (fields are those of the struct named Derived)
 	TypeParamsJoined bool   // `[K, V any]` instead of `[K any, V any]` (all constraints equal)
 	Origin           string // provenance: seed name or "grammar"
+	Combo            *Combo // annotation-combination struct (combos.go): compile errors are keyed by the minimal failing subset
 }
 
 func (s *Struct) NApp() int {
